@@ -578,7 +578,11 @@ PROPS = {
             "every PartialCompiler::compile returns Ok on every path (no `?`), the eager store keeps one Result per name and its get/try_get answers derive "
             "from store.get(name) only; failing and optional lookups never delegate to each other; the lazy cache is keyed by the requested name itself "
             "with lookup+compile+insert under one lock; include/render use the failing lookup and propagate its error. "
-            "Every write to the lazy cache is insert(requested name, result), key = plain copy of the name (R-CACHEKEY); panic-capable sites in the stores are discharged (R-PANIC). "
+            "Every write to the lazy cache is insert(requested name, result), key = plain copy of the name (R-CACHEKEY); panic-capable sites in the stores are discharged (R-PANIC), "
+            "and so is every panic-capable site on the parse side (the eager policy compiles every registered partial inside build(): a parser panic would be a build "
+            "that fails because of a partial nobody uses — F-LIT64, repaired in 79f547b, was exactly that); the value returned after a cache insert is the cached value itself; "
+            "name lists in 'unknown partial' errors are sorted as a whole before they are shown (R-LISTORDER); compiled renderables hold no interior-mutable state (R-FREEZE), "
+            "so an object shared by eager/lazy behaves like the fresh one on-demand builds. "
             "NOT decided: observational equivalence of the policies on every scenario."
         ),
         "trusted": TRUST_COMMON,
@@ -594,7 +598,7 @@ PROPS = {
             "(rustc's trait solver on /repo's types); Send+Sync are supertraits of the plugin traits; no hand-written unsafe impl/blocks; the only shared "
             "mutable state reachable from shared objects is LazyStore.cache; it is locked exactly once per lookup with check, compile and insert inside "
             "that one critical section and no callee under the lock can reach Mutex::lock or a store lookup (no self-deadlock); no RefCell guard is live "
-            "across a call that can re-borrow; every parser panic site that could poison the lock is discharged by C01's census (known finding: F-LIT64). "
+            "across a call that can re-borrow; every parser panic site that could poison the lock is discharged by C01's census (F-LIT64, the one site that was not, is repaired: 79f547b). "
             "No library function calls a process-global setter of a dependency or std (R-GLOBALSET: pest::set_call_limit, env, panic hook ..). NOT decided: schedule-level equivalence."
         ),
         "trusted": TRUST_COMMON + ["rustc trait solver", "std Mutex/Arc semantics"],
@@ -666,7 +670,7 @@ PROPS = {
             "block reader finished; no block parser can return to its element reader with an element neither parsed nor consumed as a delimiter tag (R-NODROP: rejected "
             "text cannot be skipped silently); every loop in parse-reachable workspace code pulls from a finite iterator / pest-backed reader (R-TERM) and no "
             "parse-reachable code consumes a Range over the liquid integer type (R-PARSECOST: a literal cannot drive parse-time work). NOT decided: recursion depth, "
-            "termination inside pest/std iterators, message content, panics inside pest. Known finding: F-LIT64."
+            "termination inside pest/std iterators, message content, panics inside pest. The out-of-range integer literal (F-LIT64) is repaired (79f547b) and its site discharged by the D-PRECHECK class."
         ),
         "trusted": TRUST_COMMON + ["pest_meta grammar front end", "ledger/panic_sites.tsv L-REASON/D-LOCAL lines (listed in evidence)"],
         "note": "a census with obligations: new or unjustified panic-capable sites alarm; reasons marked L-REASON/D-LOCAL are human-reviewed, not machine-checked",
@@ -717,7 +721,7 @@ PROPS = {
             "no defaulting or sign surgery; float/bool literal conversions cannot fail (grammar language); every match over literal "
             "Variable::evaluate/try_evaluate push the scalar view of each evaluated index unmodified (R-PATHVERBATIM: no to_integer/ScalarCow::new/to_kstr between "
             "evaluation and Path::push); a missing first/last/element is never defaulted (R-OVERLAY); "
-            "kinds covers the grammar's alternatives. NOT decided: negative-index arithmetic, printed form of each literal. Known finding: F-LIT64."
+            "kinds covers the grammar's alternatives. NOT decided: negative-index arithmetic, printed form of each literal. F-LIT64 (out-of-range integer literal) is repaired (79f547b)."
         ),
         "trusted": TRUST_COMMON + ["pest_meta grammar front end"],
         "note": "numeric parts (index conversion) are out of reach of static analysis",
